@@ -29,15 +29,35 @@ BUDGET = {"quick": {"examples": 900, "deadline_s": 110}, "thorough": {"examples"
 @st.composite
 def strategy_(draw, tier):
     big = tier == "thorough"
-    case = draw(gen.model_cases(max_nodes=6 if big else 5, p_opts=0, p_constr=4, p_ignore=5, p_se=5, p_node=5, k_slack=1))
+    case = draw(gen.model_cases(max_nodes=7 if big else 6, p_opts=0, p_constr=2, p_ignore=5, p_se=5, p_node=5, k_slack=1, p_len=3, p_wild=4))
     cls = case["cls"]
     variant = draw(gen.option_dicts(cls, mode=draw(st.sampled_from(["single", "single", "single", "random", "random", "all_on", "default"]))))
+    ckey = "subset_constraints" if cls in CYC_CLASSES else "subpath_constraints"
+    if case["kw"].get(ckey) and draw(st.booleans()):
+        # flags that turn safety information / constraints into (additional) constraints interact with the user's constraints:
+        # exercise them together, with the MILP really built
+        if cls in CYC_CLASSES:
+            variant = {"optimize_with_safety_as_subset_constraints": draw(st.booleans()), "optimize_with_max_safe_antichain_as_subset_constraints": draw(st.booleans()),
+                       "optimize_with_safe_sequences": draw(st.booleans())}
+        else:
+            variant = {"optimize_with_safety_as_subpath_constraints": True, "optimize_with_subpath_constraints_as_safe_sequences": draw(st.sampled_from([True, True, False])),
+                       "optimize_with_safe_paths": draw(st.booleans())}
+            if cls in ("kFlowDecomp", "MinFlowDecomp"):
+                variant["optimize_with_greedy"] = False
+                variant["optimize_with_flow_safe_paths"] = not variant["optimize_with_safe_paths"]
     if cls == "kLeastAbsErrorsCycles" or cls == "kLeastAbsErrors":
         # these classes take the trusted set from the caller: the documented way to enable safety for them
-        if draw(st.booleans()):
-            es = [[u, v] for u, v, _d in case["graph"]["edges"]]
-            if es and case["kw"].get("flow_attr_origin") != "node":
-                case["kw"]["trusted_edges_for_safety"] = es
+        # Sound only if EVERY optimal solution uses every trusted edge (the documented obligation of the caller): guaranteed when
+        # the weights are an exact superposition of <= k planted routes (optimum 0 => every positive edge is covered), nothing is
+        # ignored / scaled and no extra starts/ends are declared.
+        m_ = case["meta"]
+        kw_ = case["kw"]
+        exact = m_.get("noise_total", 1) == 0 and not kw_.get("elements_to_ignore") and not kw_.get("error_scaling") and not kw_.get("additional_starts") and not kw_.get("additional_ends")
+        if draw(st.booleans()) and exact and kw_.get("k", 0) >= len({tuple(r) for r, _w in m_.get("planted", [])}) > 0:
+            es = [[u, v] for u, v, d in case["graph"]["edges"] if d.get("flow", 0) > 0]
+            if es and kw_.get("flow_attr_origin") != "node":
+                kw_["trusted_edges_for_safety"] = es
+                m_["trusted_given"] = True
     case["variant"] = variant
     return case
 
@@ -87,6 +107,23 @@ def run_case(case, tier="quick"):
     except Exception as e:
         return invalid_config(f"malformed case {e!r}")
     labels = {cls} | {f"flag:{f}={v}" for f, v in variant.items()}
+    if case["kw"].get("trusted_edges_for_safety"):
+        # the caller's obligation (all optimal solutions use all trusted edges) is only certain for exact planted instances
+        from ..oracle.routes import check_route
+
+        kw_, m_ = case["kw"], case.get("meta") or {}
+        G_ = graph_from_json(case["graph"])
+        planted = m_.get("planted") or []
+        acc = {}
+        okp = bool(planted) and all(check_route(G_, list(r), (), (), simple=cls not in CYC_CLASSES) is None for r, _w in planted)
+        if okp:
+            for r, w in planted:
+                for e in zip(r[:-1], r[1:]):
+                    acc[e] = acc.get(e, 0) + w
+            okp = all(abs(acc.get((u, v), 0) - d.get("flow", 0)) < 1e-9 for u, v, d in G_.edges(data=True)) and kw_.get("k", 0) >= len({tuple(r) for r, _w in planted})
+        if not okp or kw_.get("elements_to_ignore") or kw_.get("error_scaling") or kw_.get("additional_starts") or kw_.get("additional_ends"):
+            return invalid_config("trusted_edges_for_safety given without a guarantee that every optimal solution uses them")
+        labels.add("trusted_edges_given")
     base_case = copy.deepcopy(case)
     base_case["kw"]["optimization_options"] = {f: False for f in flags}
     var_case = copy.deepcopy(case)
